@@ -58,6 +58,9 @@ Definition ent_ok (ent : bytes -> option bytes) : Prop :=
 Lemma ent_small_ok : ent_ok ent_small.
 Proof. repeat split. Qed.
 
+Lemma ent_full_ok : ent_ok ent_full.
+Proof. repeat split; vm_compute; reflexivity. Qed.
+
 Lemma entity_amp ent t : ent_ok ent -> unescape_entity ent (38 :: 97 :: 109 :: 112 :: 59 :: t) = ([38], t).
 Proof. intros (Ha & _ & _). unfold unescape_entity. cbn. rewrite Ha. reflexivity. Qed.
 
@@ -231,11 +234,11 @@ Lemma model_meets_spec quote unquote :
 Proof.
   intros H k s W. unfold spec_ok, model_case. cbn [c_mode c_enc c_dec c_pipe c_in].
   destruct k.
-  - rewrite (pipeline_escape quote unquote ent_small H).
+  - rewrite (pipeline_escape quote unquote ent_full H).
     cbn [cmd cmd_escape obind is_ok]. rewrite H, out_eqb_refl. reflexivity.
-  - rewrite (pipeline_html quote unquote ent_small s ent_small_ok).
-    cbn [cmd cmd_html obind is_ok]. rewrite (html_roundtrip _ _ ent_small_ok), out_eqb_refl. reflexivity.
-  - rewrite (pipeline_url quote unquote ent_small s W).
+  - rewrite (pipeline_html quote unquote ent_full s ent_full_ok).
+    cbn [cmd cmd_html obind is_ok]. rewrite (html_roundtrip _ _ ent_full_ok), out_eqb_refl. reflexivity.
+  - rewrite (pipeline_url quote unquote ent_full s W).
     cbn [cmd cmd_url obind is_ok]. rewrite (url_roundtrip _ W), out_eqb_refl. reflexivity.
 Qed.
 
@@ -245,8 +248,8 @@ Lemma model_meets_spec_html_url quote unquote k s :
 Proof.
   intros NK W. unfold spec_ok, model_case. cbn [c_mode c_enc c_dec c_pipe c_in].
   destruct k; [congruence| |].
-  - rewrite (pipeline_html quote unquote ent_small s ent_small_ok).
-    cbn [cmd cmd_html obind is_ok]. rewrite (html_roundtrip _ _ ent_small_ok), out_eqb_refl. reflexivity.
-  - rewrite (pipeline_url quote unquote ent_small s W).
+  - rewrite (pipeline_html quote unquote ent_full s ent_full_ok).
+    cbn [cmd cmd_html obind is_ok]. rewrite (html_roundtrip _ _ ent_full_ok), out_eqb_refl. reflexivity.
+  - rewrite (pipeline_url quote unquote ent_full s W).
     cbn [cmd cmd_url obind is_ok]. rewrite (url_roundtrip _ W), out_eqb_refl. reflexivity.
 Qed.
